@@ -476,11 +476,14 @@ def call_np(I, name, args, kwargs, node, fr):
         return Top(name)
     if name == "unique":
         x = args[0] if args else Top()
+        # the table of distinct values has an axis of its own (sorted order): positions in another table of the same values
+        # (a list(set(...)), in hash order) are not positions in this one
+        ua = Ax(f"uniq@{getattr(node, 'lineno', 0)}")
         if isinstance(x, Arr):
-            return Arr([UNK], x.elem, x.space, frozenset({"unique"}))
+            return Arr([ua], x.elem, x.space, frozenset({"unique"}))
         if isinstance(x, Lst):
             e = x.element()
-            return Arr([UNK], getattr(e, "kind", "f"), getattr(e, "space", None), frozenset({"unique"}))
+            return Arr([ua], getattr(e, "kind", "f"), getattr(e, "space", None), frozenset({"unique"}))
         return Top("unique")
     if name == "setxor1d" or name == "setdiff1d" or name == "intersect1d" or name == "union1d":
         a = args[0] if args else Top()
